@@ -663,6 +663,24 @@ func runC14(r *Run) {
 			"only the first Cache-Control line of the request is looked at: `Cache-Control: max-age=0` followed by a second line `Cache-Control: no-cache` (or no-store) is served from the cache / stored")
 	})
 
+	r.rule("R14", "the separately stored body lives as long as its entry: the lifetime handed to manager.setRaw for the `_body` record is the value handed to the manager.set that follows it (both follow the ExpirationGenerator) — a body that expires first leaves a fresh entry that is served as a hit with an empty body (E5, sibling agreement)", func() {
+		_, h := cacheHandler(r)
+		n := 0
+		for _, raw := range callsMatching(h, false, nameHasSuffix("cache.manager).setRaw")) {
+			ttlRaw := raw.Common.Args[len(raw.Common.Args)-1]
+			for _, set := range callsMatching(h, false, nameHasSuffix("cache.manager).set")) {
+				if _, hit := reach(pointAfter(raw.Instr), func(in ssa.Instruction) bool { return in == set.Instr }, nil, nil); hit == nil {
+					continue
+				}
+				n++
+				ttlSet := set.Common.Args[len(set.Common.Args)-1]
+				r.check(sameValue(ttlRaw, ttlSet), fmt.Sprintf("handler:setRaw#%d:same-lifetime-as-its-entry", n), r.pos(raw.Instr), "setRaw and the following set are given the same lifetime value",
+					"the body record and its entry are stored with different lifetimes ("+r.pos(raw.Instr)+" vs "+r.pos(set.Instr)+"): with an ExpirationGenerator that answers more than Config.Expiration the storage drops `<key>_body` while the entry is still fresh — X-Cache: hit with the origin's status and headers and an empty body")
+			}
+		}
+		r.atLeast("setRaw/set pairs in the handler", n, 1)
+	})
+
 	r.rule("R13", "an entry is complete when it is handed to the store: after manager.set(key, e, …) no field of an item is written any more in the handler — with an external Storage the entry is serialised by set, a heap index (or anything else) assigned afterwards never reaches the stored record (E10 ordering)", func() {
 		_, h := cacheHandler(r)
 		isItemWrite := func(in ssa.Instruction) bool {
